@@ -29,6 +29,11 @@ impl AArch64Register {
         self.bits
     }
 
+    /// Returns true for the SVE vector (`z`) and predicate (`p`) registers
+    pub fn is_sve(&self) -> bool {
+        matches!(self.name.as_bytes().first(), Some(b'z') | Some(b'p'))
+    }
+
     /// Returns true if this is a full-width register (i.e. eax, ebx, etc)
     pub fn is_full(&self) -> bool {
         self.bad64_reg == self.bad64_full_reg
